@@ -176,10 +176,58 @@ def check_grid(case, ctx):
                       "evalpts[-1] = %r but last control point is %r" % (pts[-1], last))
 
 
+def check_grid_reuse(case, ctx):
+    """The sampled grid equals the definition also when the same object is re-sampled after its control points
+    or sampling density were replaced (evaluation entry points read the current definition)."""
+    import itertools
+    d = case["defn"]
+    obj = build.make(d)
+    ns = case["n"]
+    pdim = len(ns)
+    obj.delta = 1.0 / ns[0]
+    first = [list(p) for p in obj.evalpts]
+    ctx.check(len(first) == ns[0] ** pdim, "grid-size", "evalpts has %d points" % len(first))
+    d2 = dict(d)
+    d2["P"] = [[c + 1.0 + i * 0.5 for i, c in enumerate(p)] for p in d["P"]]
+    how = case["single_delta"]
+    if how:
+        obj.ctrlpts = [list(p) for p in d2["P"]]
+    else:
+        if d["rational"]:
+            obj.set_ctrlpts(build.homogeneous(d2["P"], d["W"]), *d["size"])
+        else:
+            obj.set_ctrlpts([list(p) for p in d2["P"]], *d["size"])
+    if pdim > 1 and len(set(ns)) > 1:
+        obj.delta = tuple(1.0 / n for n in ns)
+    else:
+        ns = [ns[0]] * pdim
+    R = build.exact_from(d2, obj)
+    _nontrivial(ctx, d, ["end"])
+    ctx.nt(True, "re-sampled")
+    pts = obj.evalpts
+    total = 1
+    for n in ns:
+        total *= n
+    ctx.check(len(pts) == total, "grid-size", "re-sampled evalpts has %d points, expected %d" % (len(pts), total))
+    dom = R.domain()
+    grids = [[dom[k][0] + (dom[k][1] - dom[k][0]) * F(i, ns[k] - 1) for i in range(ns[k])] for k in range(pdim)]
+    for g, idx in zip(pts, itertools.product(*[range(n) for n in ns])):
+        r, scale = R.point([grids[k][idx[k]] for k in range(pdim)])
+        ctx.check(ref.vec_close(g, r, scale, 1e-8), "grid-after-edit",
+                  "after replacing the control points, evalpts entry %r = %r, definition gives %r" % (idx, g, ref.fl(r)))
+    if d["kind"] != "volume":
+        us = [float(grids[k][-1]) for k in range(pdim)]
+        r, scale = R.point(us)
+        got = obj.evaluate_single(build.call_param(obj, us))
+        ctx.check(ref.vec_close(got, r, scale), "single-after-edit", "evaluate_single after edit = %r, definition %r" % (got, ref.fl(r)))
+
+
 SUBCHECKS = [
     SubCheck("single", _single_cases, check_single, quick=500, thorough=2500, shards_quick=2,
              rule="non-trivial = repeated interior knot, or unclamped, or affine (non-normalised) range, or varied "
                   "weights, or a parameter on an interior knot / at the domain end, or a volume"),
     SubCheck("grid", _grid_cases, check_grid, quick=250, thorough=1200, shards_quick=2,
              rule="non-trivial = as 'single' (the grid always contains the domain end) or pairwise different sample sizes"),
+    SubCheck("grid_reuse", _grid_cases, check_grid_reuse, quick=150, thorough=800,
+             rule="every case re-samples one object after its control points were replaced"),
 ]
